@@ -197,3 +197,6 @@ pub open spec fn term_step(b0: Buffer, c0: Caret, b1: Buffer, c1: Caret, g: int)
     &&& b1.terminal_state.size == b0.terminal_state.size
     &&& forall|k: int| #[trigger] term_inv(b0, c0, k) && k + g <= CAP() ==> term_inv(b1, c1, k + g)
 }
+pub open spec fn row_in_view(b: Buffer, c: Caret) -> bool {
+    first_visible(b) <= c.pos.y < first_visible(b) + b.terminal_state.size.height
+}
